@@ -412,12 +412,12 @@ func genC16(g *mon.G) {
 
 func init() {
 	Register(&mon.Check{
-		ID:    "C16",
-		Level: "fault_enumeration",
-		Rule: "cases = seeded sessions (open, 1-5 puts, finalize) on 5 targets (StorageCar over a WriterAt memfile, StorageCar over a plain io.Writer, deferred stream writer, blockstore.ReadWrite through the verif write hook with Put, and with one PutMany); the fault-free run yields the list of write calls; then EVERY write call is faulted once with accepted byte counts {0, mid, len-1} (quick) or every count (a third of the thorough cases), with and without a retry of the failed block, plus fault pairs in the thorough tier. Oracles: the API call during which the writer failed must return an error; Has(failed block) must be false unless stored earlier; if all later calls succeed the finalized archive must decode strictly, hold exactly the acknowledged blocks, a matching index and consistent header. counters.faulted-sessions counts individual faulted sessions",
+		ID:          "C16",
+		Level:       "fault_enumeration",
+		Rule:        "cases = seeded sessions (open, 1-5 puts, finalize) on 5 targets (StorageCar over a WriterAt memfile, StorageCar over a plain io.Writer, deferred stream writer, blockstore.ReadWrite through the verif write hook with Put, and with one PutMany); the fault-free run yields the list of write calls; then EVERY write call is faulted once with accepted byte counts {0, mid, len-1} (quick) or every count (a third of the thorough cases), with and without a retry of the failed block, plus fault pairs in the thorough tier. Oracles: the API call during which the writer failed must return an error; Has(failed block) must be false unless stored earlier; if all later calls succeed the finalized archive must decode strictly, hold exactly the acknowledged blocks, a matching index and consistent header. counters.faulted-sessions counts individual faulted sessions",
 		Assumptions: []string{"fault model: a write call accepts k < len bytes and returns an error once (transient)", "for the blockstore the verif hook performs the partial write and returns the error, as a full disk would; its trace is checked for completeness against the file", "for a failing PutMany the blocks of the batch form a maybe-set"},
-		Gen:   genC16,
-		Run:   runC16,
+		Gen:         genC16,
+		Run:         runC16,
 		MinCover: map[string]int{"faulted-sessions": 2000, "fault-in:open": 50, "fault-in:put": 500, "fault-in:finalize": 50, "archives-judged-after-fault": 200, "retried-failed-put": 100, "trace-completeness-checked": 5,
 			"target:blockstore": 5, "target:storage-stream": 5, "target:deferred-stream": 5},
 	})
